@@ -1,4 +1,53 @@
-import Model.Base.Proto
+import Model.Tab.DriverLib
 
-/-- stub: replaced when the property's driver is built -/
-def main : IO Unit := pure ()
+/-
+C15 driver. Same case lines as C14. The MODEL is run with its nondeterminism explicit
+(`Tab.toTablesSched`) under several schedules — map iteration orders and goroutine completion
+orders —; the obs lines are printed from one of them (chosen by the case id) and must equal
+what the real code built; `sched same=1` reports that all schedules gave identical tables
+(self-check of the model, cf. theorem C15.toTables_order_independent).
+  spec — what the property demands of the runtime part: byte-identical output of all runs,
+         no race report, cells unchanged under line permutation.
+-/
+namespace Driver.C15
+open Proto Tab Tab.DriverLib
+
+def rotate {α : Type} (l : List α) : List α := l.drop 1 ++ l.take 1
+def evensOdds {α : Type} (l : List α) : List α :=
+  (l.zipIdx.filter fun x => x.2 % 2 == 0).map (·.1) ++ (l.zipIdx.filter fun x => x.2 % 2 == 1).map (·.1)
+
+def scheds : List Sched :=
+  [ Sched.default,
+    { iter := fun _ l => l.reverse, taskOrder := fun _ l => l.reverse },
+    { iter := fun _ l => rotate l, taskOrder := fun _ l => evensOdds l },
+    { iter := fun _ l => evensOdds l.reverse, taskOrder := fun _ l => rotate (rotate l) },
+    { iter := fun _ l => l, taskOrder := fun _ l => l.reverse } ]
+
+def handle (l : Line) : IO Unit := do
+  if l.kind != "case" then return
+  let id := l.id
+  match l.getD "kind" with
+  | "defaults" => IO.println (defaultsLine id)
+  | "run" =>
+    match l.get? "err" with
+    | some e =>
+      IO.println s!"obs {id} err={e}"
+      IO.println s!"spec {id} err bin=ok"
+    | none =>
+      let c := parseCase l
+      let b := build c.res
+      let n := (id.toNat?.getD 0) % scheds.length
+      let pick := scheds.getD n Sched.default
+      let ts := toTablesSched c.cfg pick b
+      for line in obsTables id c ts do IO.println line
+      let ref := toTables c.cfg b
+      let same := scheds.all fun s => decide (toTablesSched c.cfg s b = ref)
+      IO.println s!"obs {id} sched same={if same then 1 else 0}"
+      IO.println s!"spec {id} same=1 race=0 perm=1 bin=ok"
+  | _ => pure ()
+
+end Driver.C15
+
+def main : IO Unit := do
+  let stdin ← IO.getStdin
+  Proto.forEachLine stdin fun s => Driver.C15.handle (Proto.parseLine s)
